@@ -261,8 +261,10 @@ def main(argv=None):
             n_o = int(o.get("count", 1) or 1)
             obligations += n_o
             stage_hist[o["stage"]] = stage_hist.get(o["stage"], 0) + n_o
-            if o["stage"] and o["stage"].startswith("solver"):
+            if o["stage"] and (o["stage"].startswith("solver") or o["stage"] == "simplify"):
                 evaluations += n_o
+            if o["stage"] and o["stage"].startswith("solver"):
+                solver_checks += n_o
             if o.get("nontrivial"):
                 nontrivial_keys.add(o["key"])
                 nontrivial_merged += n_o - 1
